@@ -4,7 +4,7 @@
 cd "$(dirname "$0")/.."
 mkdir -p target
 : > target/thorough.log
-for c in C01 C02 C04 C05 C06 C07 C08 C09 C10 C11 C12 C13 C14 C15 C16 C17 C18 C19 C03 C20; do
+for c in C01 C02 C04 C05 C06 C07 C09 C10 C11 C12 C18 C19 C15 C16 C20 C08 C13 C17 C03 C14; do
   s=$(date +%s)
   ./check $c thorough > target/thorough-$c.out 2>&1
   rc=$?
